@@ -27,6 +27,7 @@ type Obligation struct {
 	Gen     *FuncGen
 	Extra   []string // extra assertions (split instance)
 	Subst   [][2]string // textual term replacement (split instance)
+	AssumeIdx int // for side checks: index+1 of the assert that assumes the check afterwards
 	Inputs  []ModelVar
 }
 
@@ -130,6 +131,7 @@ type FuncGen struct {
 	bytesOf map[string]string
 	localAllocs map[*ssa.Alloc]bool
 	abstractions [][2]string
+	disabled map[int]bool // assumptions of failed side checks, dropped in the second pass
 	inline map[ssa.Value]bool
 	posts    map[string]*postParts
 	postOrder []string
